@@ -977,8 +977,8 @@ class Check(PropertyCheck):
             "edits, backup+edit+revert) and every OTHER flow — in memory, saved and reloaded, from the second load, and from the original "
             "file read once more in the same process — must still have the state that was written. "
             "distinct = distinct case content; non-trivial = non-empty input.")
-    budget = {"quick": 6000, "thorough": 100000}
-    time_budget = {"quick": 15, "thorough": 240}
+    budget = {"quick": 6000, "thorough": 60000}
+    time_budget = {"quick": 15, "thorough": 180}
     fingerprints = ["mitmproxy.io.tnetstring:dumps", "mitmproxy.io.tnetstring:dump", "mitmproxy.io.tnetstring:_rdumpq",
                     "mitmproxy.io.tnetstring:load", "mitmproxy.io.tnetstring:parse", "mitmproxy.io.tnetstring:split",
                     "mitmproxy.io.tnetstring:pop", "mitmproxy.io.tnetstring:loads", "mitmproxy.io.io:FlowReader.stream",
